@@ -15,8 +15,10 @@
 package backend
 
 import (
+	"bytes"
 	"encoding/binary"
 	"fmt"
+	"strings"
 	"time"
 
 	"k8s.io/klog/v2"
@@ -45,9 +47,10 @@ const (
 func (c *Config) getScannerConfig() scanner.Config {
 	// todo: expose TTL as args
 	return scanner.Config{
-		CompactKey: getCompactKey(c.Prefix),
-		Tombstone:  tombStoneBytes,
-		TTL:        time.Second * time.Duration(eventsTTL),
+		CompactKey:   getCompactKey(c.Prefix),
+		Tombstone:    tombStoneBytes,
+		TTL:          time.Second * time.Duration(eventsTTL),
+		EventsPrefix: getEventsPrefix(c.Prefix),
 	}
 }
 
@@ -55,6 +58,16 @@ func (c *Config) complete() {
 	if c.WatchCacheSize <= 0 {
 		c.WatchCacheSize = historyCapacity
 	}
+}
+
+// getEventsPrefix returns the directory of the Event resource, the only keys which are written with ttl
+func getEventsPrefix(prefix string) []byte {
+	return []byte(strings.TrimSuffix(prefix, "/") + string(events))
+}
+
+// isEventKey checks if key is an Event record, i.e. it is in the events directory right under prefix
+func isEventKey(prefix string, key []byte) bool {
+	return bytes.HasPrefix(key, getEventsPrefix(prefix))
 }
 
 func getCompactKey(prefix string) []byte {
